@@ -55,6 +55,10 @@ var c15Specs = []string{
 	"grammar h;\nAB = /ab?|b/;\nCD = /c|dd?/;\nstart = AB CD \";\" | ;\n",
 	// two conflicting final states: generation fails in the lexer step
 	"grammar k;\nTA = /y/;\nTB = /y|zz/;\nTC = /zz/;\nstart = TA TB TC;\n",
+	// string tokens and a literal of the same kind and name length, declared in an order that is not the sorted one
+	"grammar n;\nTC = \"s\";\nTA = \"t\";\nstart = TC TA \"TB\";\n",
+	// the same with patterns
+	"grammar o;\nZZ = /a/;\nMM = /b/;\nAA = /c/;\nstart = ZZ MM AA;\n",
 	// a grammar with conflicts: generation fails in the parser step
 	"grammar m;\nNUM = /[0-9]/;\nstart = start \"+\" start | start \"*\" start | NUM;\n",
 }
@@ -99,5 +103,5 @@ func harnessC15Generate() {
 	} else {
 		verif.Reach("generated")
 	}
-	verif.Assert(first == second, "what is generated depends on the iteration order of a hash map: "+first+" <> "+second)
+	verif.Assert(first == second, "what is generated depends on an order the text does not determine (hash map iteration, container traversal, sort input or goroutine completion): "+first+" <> "+second)
 }
